@@ -91,6 +91,10 @@ def c_wb_shared_timeout(nm, ns, cycles, register=False, crossbar=False):
             h.hint(f"w{i}.zero", z3.Implies(z3.Not(owns), w == K(0, GW)))
             expired = uge(w, cycles)
             h.ensure(f"ens.term{i}", z3.Implies(expired, z3.And(b(h.v(m.ack)), h.v(m.dat_r) == K(2**32 - 1, 32), b(h.v(d.timeout.error)))))
+            # "requests answered in time are never disturbed": until ITS request has waited `cycles` cycles the owner sees exactly the slaves' acknowledge
+            # (however long it keeps cyc/stb up over earlier, answered transfers) and no error pulse
+            anyack = z3.Or(*[b(h.v(s.ack)) for s in slaves])
+            h.ensure(f"ens.transparent{i}", z3.Implies(z3.And(owns, z3.Not(expired)), z3.And(b(h.v(m.ack)) == anyack, z3.Not(b(h.v(d.timeout.error))))))
             h.respond(f"resp.term{i}", owns, b(h.v(m.ack)), cycles + 1)
         h.use_auto = True
         h.cover("cover.timeout", b(h.v(d.timeout.error)), depth=cycles + 4)
